@@ -153,7 +153,7 @@ func toEnumList(src val.EnumList, v interface{}) (val.EnumList, error) {
 		}
 		return l, nil
 	default:
-		if e, err := toEnum(src, v); err != nil {
+		if e, err := toEnum(src, v); err == nil {
 			return val.EnumList([]val.Enum{e}), nil
 		}
 	}
@@ -228,7 +228,12 @@ func toBitsList(bitDefintions []*meta.Bit, v interface{}) (val.BitsList, error) 
 }
 
 func toBitsValueHandler[V int | uint | int64 | float64](bitDefintions []*meta.Bit, v V) (val.Bits, error) {
-	return toBits(bitDefintions, uint64(v))
+	// negative or fractional numbers cannot be a set of bit positions
+	positions, err := val.Conv(val.FmtUInt64, v)
+	if err != nil {
+		return val.Bits{}, fmt.Errorf("could not coerce %v into bits", v)
+	}
+	return toBits(bitDefintions, positions.Value().(uint64))
 }
 
 func toBits(bitDefintions []*meta.Bit, v interface{}) (val.Bits, error) {
@@ -236,11 +241,16 @@ func toBits(bitDefintions []*meta.Bit, v interface{}) (val.Bits, error) {
 	switch x := v.(type) {
 	case []string: // labels only
 		for _, strBit := range x {
+			found := false
 			for _, bitDef := range bitDefintions {
 				if strBit == bitDef.Ident() {
 					result.Labels = append(result.Labels, strBit)
 					result.Positions = result.Positions | (1 << bitDef.Position)
+					found = true
 				}
+			}
+			if !found && strBit != "" {
+				return val.Bits{}, fmt.Errorf("'%s' is not a declared bit", strBit)
 			}
 		}
 		return result, nil
@@ -250,6 +260,9 @@ func toBits(bitDefintions []*meta.Bit, v interface{}) (val.Bits, error) {
 				result.Positions = result.Positions | (1 << bitDef.Position)
 				result.Labels = append(result.Labels, bitDef.Ident())
 			}
+		}
+		if result.Positions != x {
+			return val.Bits{}, fmt.Errorf("%d has bits set that are not declared", x)
 		}
 		return result, nil
 	case string: // treat string as list of bit identifiers separated by space
